@@ -44,7 +44,8 @@ def gen(rng, idx, tier):
         else:
             items.append({"bare": rng.choice([0xFF00, "x"])})
     beh = {"mode": "gen", "count": n if rng.randrange(12) else rng.choice(["str", None, -1]), "items": items,
-           "store": [rng.choice(["ok", "ok", "ok", "warn", "fail", "raise"]) for _ in range(k + 1)]}
+           "store": [rng.choice(["ok", "ok", "ok", "warn", "fail", "raise", rng.choice(["odd:4660", "odd:53248", "odd:512", "odd:65280", "odd:65024"])])
+                     for _ in range(k + 1)]}
     if op == "move":
         beh["dest"] = "ok" if rng.randrange(10) else rng.choice(["none", "refused", "bad"])
     return {"op": op, "beh": beh, "msg_id": rng.choice([0, 1, 5, 400]), "max_pdu": 16382,
@@ -147,15 +148,16 @@ def check(sc, r):
                     want = (0xA702,)
                 else:
                     want = (0xB000,)
-                if st not in want:
+                if st not in want and not any(o.startswith("odd:") for o in [h["outcome"] for h in r.hist if h["kind"] == "handler" and h["op"] == "store_sub"]):
                     out.append(C.v("final-status", "C22/final-status/%s/0x%04x-for-c%d-f%d-w%d-of-%d" % (op, st, comp, fail, warn, N) if False else "C22/final-status/%s/0x%04x" % (op, st),
                                    "final status 0x%04X with completed=%d failed=%d warning=%d of %d; expected %s" % (st, comp, fail, warn, N, [hex(w) for w in want])))
                 # failed list = instances whose sub-operation failed
                 outs = [h["outcome"] for h in r.hist if h["kind"] == "handler" and h["op"] == "store_sub"]
                 nfail = len([o for o in outs if o in ("fail", "raise")])
-                if fail != nfail and len(outs) == len(sc["beh"]["items"]):
+                odd = any(o.startswith("odd:") for o in outs)   # an undefined sub-operation status: not judged as failed / not failed
+                if fail != nfail and len(outs) == len(sc["beh"]["items"]) and not odd:
                     out.append(C.v("failed-count", "C22/failed-count/%s" % op, "final reports %d failed, %d sub-operations failed at the store SCP (%s)" % (fail, nfail, outs)))
-                if x["ds_len"] and fail:
+                if x["ds_len"] and fail and not odd:
                     uids = _failed_uids(x["dataset"])
                     want_uids = sorted("1.2.3.4.%d" % (i + 1) for i, o in enumerate(outs) if o in ("fail", "raise"))
                     if uids is not None and sorted(uids) != want_uids:
